@@ -216,6 +216,71 @@ inline std::string I(long long v)
    return std::to_string(v);
 }
 
+// ================================================================================================ sparse vector helpers
+typedef std::map<int, Q> SpModel;
+
+template <class R>
+inline bool spEq(const soplex::SVectorBase<R>& v, const SpModel& m, std::string* why)
+{
+   SpModel got;
+   if(v.size() < 0 || v.size() > v.max())
+   {
+      *why = "size()=" + I(v.size()) + " max()=" + I(v.max());
+      return false;
+   }
+   for(int j = 0; j < v.size(); j++)
+   {
+      Q val = RT<R>::get(v.value(j));
+      if(val == 0) continue;
+      if(got.count(v.index(j)))
+      {
+         *why = "index " + I(v.index(j)) + " stored twice";
+         return false;
+      }
+      got[v.index(j)] = val;
+   }
+   if(got != m)
+   {
+      std::string a, b;
+      for(auto& kv : got) a += I(kv.first) + ":" + qs(kv.second) + " ";
+      for(auto& kv : m) b += I(kv.first) + ":" + qs(kv.second) + " ";
+      *why = "vector is {" + a + "} expected {" + b + "}";
+      return false;
+   }
+   return true;
+}
+
+
+template <class R>
+struct ValGen
+{
+   // double: dyadic with small numerator (all arithmetic on them is exact); Rational: arbitrary small fractions
+   static Q val(Rng& g)
+   {
+      for(;;)
+      {
+         int n = g.range(-24, 24);
+         if(n == 0) continue;
+         if(RT<R>::exact)
+         {
+            static const int dens[] = {1, 2, 3, 5, 7, 4};
+            return qfrac(n, dens[g.range(0, 5)]);
+         }
+         return qfrac(n, 1 << g.range(0, 2));
+      }
+   }
+};
+
+template <class R>
+inline void fillDSV(soplex::DSVectorBase<R>& d, const SpModel& m, Rng* shuffle)
+{
+   std::vector<int> idx;
+   for(auto& kv : m) idx.push_back(kv.first);
+   if(shuffle) shuffle->shuffle(idx);
+   for(int i : idx) d.add(i, RT<R>::make(m.at(i)));
+}
+
+
 // hazard flags: argument patterns that are known to corrupt memory on the pinned tree are only executed if a
 // non-crashing variant of the same call behaved correctly (inference probe) or, for the one case where no such
 // variant exists, if a forked child survived it under AddressSanitizer (cont::forkProbe).
